@@ -868,8 +868,14 @@ def t_wrapper(E):
         my.clear()
         ctx = setup_wrapper(E, with_cache_arg=True)
         roles(E, ctx)
-        if ctx.cache_obj is None or len(ctx.tables) != 1 or ctx.lock_obj is None:
-            raise Unsupported('cannot identify cache mapping / one in-flight table / creation lock in the closure')
+        if ctx.cache_obj is None or len(ctx.tables) != 1:
+            raise Unsupported('cannot identify cache mapping / one in-flight table in the closure')
+        E.oblige('%s/lock.one_creation_lock_is_shared_by_every_call' % Q, z3.BoolVal(ctx.lock_obj is not None),
+                 props={'C01', 'C05', 'C06', 'C14'},
+                 detail='decorating the function creates no lock for the wrapper to close over: a lock made inside the '
+                        'call excludes nobody, two callers on different threads both find no marker and both compute')
+        if ctx.lock_obj is None:
+            raise PathEnd()
         thread, task = mk_stable(my)
         def terms(s1, s2):
             evs = [s2.m_ev]
@@ -935,8 +941,8 @@ def t_wrapper(E):
                              s.cancel_req[me], props={'C06', 'C05'}, detail='origin: %s' % origin)
                 else:
                     E.oblige(Q + '/signals.exception_only_from_the_callers_own_invocation',
-                             z3.BoolVal(False), props={'C06', 'C05', 'C14'} if origin == 'evicted-after-own-store' else
-                             {'C06', 'C05'}, detail='origin: %s (a caller whose wait ended '
+                             z3.BoolVal(False), props={'C06', 'C05', 'C14', 'C01'} if origin == 'evicted-after-own-store' else
+                             {'C06', 'C05', 'C01'}, detail='origin: %s (a caller whose wait ended '
                              'without a result must loop around and recover, not fail)' % origin)
         # ---- C05: no marker outlives its computation; waiters are woken
         if my.get('ev') is not None:
@@ -944,7 +950,7 @@ def t_wrapper(E):
             E.oblige(Q + '/ensures.own_event_set_on_every_exit[%s]' % kind, s.ev_set[e_], props={'C05', 'C06'},
                      detail='waiters of a computation that ended (also one whose marker was taken over) must be woken, not left to the 60 s safety timeout')
             E.oblige(Q + '/ensures.own_marker_removed_on_every_exit[%s]' % kind,
-                     z3.Not(z3.And(s.m_has, s.m_ev == e_)), props={'C05', 'C01', 'C14'},
+                     z3.Not(z3.And(s.m_has, s.m_ev == e_)), props={'C05', 'C01', 'C14', 'C06'},
                      detail='a marker that outlives its computation makes later callers (e.g. after an eviction) wait for '
                             'a computation that is over')
         E.oblige(Q + '/ensures.lock_not_held_at_exit', z3.Not(mine_lock(s, me)), props={'C05'})
